@@ -155,6 +155,17 @@ def gen_cases(rng, thorough):
                                       same_dir=rng.random() < 0.5),
                           stale_out=[rng.random() < 0.5 for _ in range(nout)],
                           stale_tmp=[False] * nout))
+        # the measurement fits into ONE part: event count exactly at the
+        # boundary (len == split_events), below it, or the default 10000
+        nev1 = rng.choice([5, 6, 8])
+        cases.append(dict(task="split",
+                          inputs=[rtdc_in(nev=nev1, kinds=[
+                              "scalar", "image", "mask"])],
+                          params=dict(split_events=rng.choice(
+                              [nev1, nev1, nev1 + 1, 16, 10000]),
+                              same_dir=rng.random() < 0.5),
+                          stale_out=[rng.random() < 0.4],
+                          stale_tmp=[False]))
         cases.append(dict(task="tdms2rtdc", fixtures=[TDMS_SMALL[rep % 2]],
                           params=dict(dir_mode=False),
                           stale_out=[rng.random() < 0.5],
